@@ -9,8 +9,10 @@ def shape_floats(sh):
                 P=[[n / d for n, d in pt] for pt in sh["P"]])
 
 
-def build(sh, normalize_kv=None, span_func=None, cls=None, evaluator=None, **extra):
-    """spec shape (JSON form) -> geomdl object.  Raw (non-[0,1]) knot vectors are kept raw unless normalize_kv=True."""
+def build(sh, normalize_kv=None, span_func=None, cls=None, evaluator=None, share_kv=False, **extra):
+    """spec shape (JSON form) -> geomdl object.  Raw (non-[0,1]) knot vectors are kept raw unless normalize_kv=True.
+    share_kv: directions with equal knot vectors are given the very same list object (as a caller writing
+    ``s.knotvector_u = kv; s.knotvector_v = kv`` does)."""
     from geomdl import BSpline, NURBS
     f = shape_floats(sh)
     pd = len(f["deg"])
@@ -24,6 +26,11 @@ def build(sh, normalize_kv=None, span_func=None, cls=None, evaluator=None, **ext
     kw.update(extra)
     C = cls or (mod.Curve, mod.Surface, mod.Volume)[pd - 1]
     o = C(**kw)
+    if share_kv:
+        for d in range(1, pd):
+            for e in range(d):
+                if f["kv"][d] == f["kv"][e]:
+                    f["kv"][d] = f["kv"][e]
     if pd == 1:
         o.degree = f["deg"][0]
         o.set_ctrlpts([list(p) for p in f["P"]])
@@ -31,11 +38,11 @@ def build(sh, normalize_kv=None, span_func=None, cls=None, evaluator=None, **ext
     elif pd == 2:
         o.degree_u, o.degree_v = f["deg"]
         o.set_ctrlpts([list(p) for p in f["P"]], f["size"][0], f["size"][1])
-        o.knotvector_u, o.knotvector_v = list(f["kv"][0]), list(f["kv"][1])
+        o.knotvector_u, o.knotvector_v = (f["kv"][0], f["kv"][1]) if share_kv else (list(f["kv"][0]), list(f["kv"][1]))
     else:
         o.degree_u, o.degree_v, o.degree_w = f["deg"]
         o.set_ctrlpts([list(p) for p in f["P"]], *f["size"])
-        o.knotvector_u, o.knotvector_v, o.knotvector_w = [list(U) for U in f["kv"]]
+        o.knotvector_u, o.knotvector_v, o.knotvector_w = f["kv"] if share_kv else [list(U) for U in f["kv"]]
     if evaluator is not None:
         o.evaluator = evaluator
     return o
